@@ -108,7 +108,7 @@ Record world := mkW {
   w_failed : bool;         (* FailedToReplicate *)
   w_logging : bool;        (* LogCommitChanges *)
   w_logs : list commit;    (* <active>/commitlogs/*.log, oldest first *)
-  w_pcache : N -> option sinfo }. (* L2 cache entries "<passive folder>:<store>" left by CopyToPassiveFolders' sr.Get *)
+  w_pcache : N -> option sinfo }. (* L2 cache entries "<passive folder>:<store>" (left from a time that folder was the active one) *)
 
 Definition active (w : world) : side := if w_tog w then w_f0 w else w_f1 w.
 Definition passive (w : world) : side := if w_tog w then w_f1 w else w_f0 w.
@@ -158,20 +158,18 @@ Definition drop_passive (f : faults) (i : nat) (n : N) (p : side) : side * bool 
   if f (S i) then (p1, false) else
   (mkSide (fset (s_has p1) n false) (s_info p1) (s_reg p1), true).
 
-(* StoreRepository.CopyToPassiveFolders as written: the store list is copied; then, per listed
-   store, the store info is looked up WITH THE FOLDER TOGGLER FLIPPED, i.e. through
-   GetWithTTL on the passive side: first the L2 cache under the key "<passive folder>:<store>"
-   (seen_info: an entry left there by an earlier reinstate within the cache TTL wins), else the
-   passive storeinfo.txt, which is then cached under that key.  A store not found is skipped; one
-   found gets THAT info written to the passive folder and the active registry segment files copied. *)
-Definition seen_info (pc : N -> option sinfo) (p : side) (n : N) : option sinfo :=
-  match pc n with Some c => Some c | None => s_info p n end.
-Definition copy_stores (pc : N -> option sinfo) (a p : side) : side :=
+(* StoreRepository.CopyToPassiveFolders: the store infos are read on the ACTIVE side (sr.Get
+   before the folder toggler is flipped); then the store list is written to the passive folder
+   and, per listed store, that active info is written there and the active registry segment
+   files are copied over.  A listed store whose info cannot be found on the active side (dropped
+   concurrently) is skipped.  The L2 cache entry "<passive folder>:<store>" of every listed store
+   is evicted (copy_cache); nothing reads those entries during a reinstate. *)
+Definition copy_stores (a p : side) : side :=
   mkSide (s_has a)
-         (fun n => if s_has a n then seen_info pc p n else s_info p n)
-         (fun t l => if s_has a t then (if isSome (seen_info pc p t) then s_reg a t l else s_reg p t l) else s_reg p t l).
-Definition copy_cache (pc : N -> option sinfo) (a p : side) : N -> option sinfo :=
-  fun n => if s_has a n then seen_info pc p n else pc n.
+         (fun n => if s_has a n then s_info a n else s_info p n)
+         (fun t l => if s_has a t then (if isSome (s_info a t) then s_reg a t l else s_reg p t l) else s_reg p t l).
+Definition copy_cache (pc : N -> option sinfo) (a : side) : N -> option sinfo :=
+  fun n => if s_has a n then None else pc n.
 
 (* fastForward: replay each logged commit (store infos, then registry) and delete the log *)
 Fixpoint fast_forward (logs : list commit) (p : side) : side * list commit * bool :=
@@ -215,8 +213,8 @@ Definition step (w : world) (o : op) : world * res :=
   | OReinstate copy_fails =>
       if negb (w_failed w) then (w, RErr) else
       if copy_fails then (with_flags w true true (w_logs w), RErr) else
-      let p1 := copy_stores (w_pcache w) a p in
-      let pc := copy_cache (w_pcache w) a p in
+      let p1 := copy_stores a p in
+      let pc := copy_cache (w_pcache w) a in
       let '(p2, logs, ok) := fast_forward (w_logs w) p1 in
       if ok then (with_pcache (with_flags (with_sides w a p2) false false logs) pc, ROk)
       else (with_pcache (with_flags (with_sides w a p2) true true logs) pc, RErr)
